@@ -117,7 +117,9 @@ Values(e) ==
   \* the regulariser actually applied is  const + prop * max|diag|
   /\ e.static_reg => UlpWithin(e.eps, e.eps_obs, 2)
   \* eliminating the auxiliary variables gives the operator that maps z to s (symmetric cones)
-  /\ \A k \in 1..Len(e.hz) : FLe(e.hz[k][1], e.hz[k][2])      \* <<||H_K z - s||, 1e-6 (||s|| + tiny)>>
+  /\ \A k \in 1..Len(e.hz) : FLe(e.hz[k][1], e.hz[k][2])
+  \* ... and, entry by entry, the operator the cones themselves apply (mul_Hs) - every cone type, expanded or not
+  /\ \A k \in 1..Len(e.hop) : FLe(e.hop[k].err, e.hop[k].tol) /\ e.hop[k].leak_zero      \* <<||H_K z - s||, 1e-6 (||s|| + tiny)>>
 
 EventOK(e) == IF e.ev = "Assembled" THEN Structure(e)
               ELSE IF e.ev = "KKTState" THEN Structure(e) /\ Values(e)
